@@ -13,10 +13,11 @@ class TS:
     """a pandas Timestamp / python datetime: seconds on the scenario's time axis"""
     abs_kind = 'datetime'
 
-    def __init__(self, t, tz=None, now=False):
+    def __init__(self, t, tz=None, now=False, py=False):
         self.t = Fr(t)
         self.tz = tz
         self.now = now
+        self.py = py          # a plain datetime.datetime (not a pandas Timestamp)
 
     @property
     def sort_key(self):
@@ -41,6 +42,23 @@ class TS:
             return self.tz
         if name in ('isoformat', 'timestamp', 'to_datetime64', 'to_pydatetime', 'tz_localize'):
             return PyCallable(lambda it, a, k, n: self, name)
+        if name == 'replace':
+            def repl(it, a, k, n):
+                if set(k) - {'tzinfo'} or a:
+                    raise AnalysisError('datetime.replace of calendar fields not modelled', n)
+                tz = k.get('tzinfo', self.tz)
+                return TS(self.t, None if tz is None else 'UTC', self.now, self.py)
+            return PyCallable(repl, name)
+        if name in ('astimezone', 'tz_convert'):
+            def conv(it, a, k, n):
+                if self.tz is None and name == 'astimezone':
+                    # stdlib fact: astimezone() on a naive datetime assumes the *process-local* time zone - an ambient input
+                    it.event('env-read', what='process-local time zone (astimezone on a naive datetime)', node=n)
+                elif self.tz is None:
+                    raise AbsRaise(ExcVal('TypeError', ('Cannot convert tz-naive Timestamp, use tz_localize to localize',)), n)
+                tz = a[0] if a else k.get('tz')
+                return TS(self.t, None if tz is None else 'UTC', self.now, self.py)
+            return PyCallable(conv, name)
         from .models_xr import missing_attr
         missing_attr('pandas', 'Timestamp', name, node)
 
